@@ -74,7 +74,9 @@ pub fn cmd_lock_child(args: &HashMap<String, String>) -> i32 {
         match it.next() {
             Some("commit") => {
                 let k = it.next().unwrap_or("x").as_bytes().to_vec();
+                let stage: u64 = it.next().and_then(|s| s.parse().ok()).unwrap_or(0);
                 let r = db.commit(vec![(0u8, k.clone(), Some(k))]);
+                drive_pipeline(&db, stage);
                 println!("{}", if r.is_ok() { "DONE" } else { "FAIL" });
                 out.lock().flush().unwrap();
             },
@@ -93,6 +95,22 @@ pub fn cmd_lock_child(args: &HashMap<String, String>) -> i32 {
         }
     }
     0
+}
+
+/// The handles of the lock replays have no worker threads: the holder of the lock moves its commit through the
+/// pipeline itself, up to a stage chosen by the replay, so that the directory a refused open meets holds queued
+/// commits only / an unsynced log / a synced log / applied tables and an emptied log file kept for reuse
+fn drive_pipeline(db: &Db, stage: u64) {
+    if stage >= 1 {
+        let _ = db.process_commits();
+    }
+    if stage >= 2 {
+        let _ = db.flush_logs();
+    }
+    if stage >= 3 {
+        let _ = db.enact_logs();
+        let _ = db.clean_logs();
+    }
 }
 
 enum Handle {
@@ -195,14 +213,16 @@ pub fn cmd_lock_replay(args: &HashMap<String, String>) -> i32 {
                 },
                 "Commit" => {
                     let key = format!("k{}_{}", actor, st["ver"].as_u64().unwrap());
+                    let stage = (i as u64 + actor + idx as u64) % 4;
                     match handles.get_mut(&actor) {
                         Some(Handle::Local(db)) => {
                             if db.commit(vec![(0u8, key.as_bytes().to_vec(), Some(key.as_bytes().to_vec()))]).is_err() {
                                 bad("commit failed".into());
                             }
+                            drive_pipeline(db, stage);
                         },
                         Some(Handle::Remote(ch, rd)) => {
-                            let _ = writeln!(ch.stdin.as_mut().unwrap(), "commit {key}");
+                            let _ = writeln!(ch.stdin.as_mut().unwrap(), "commit {key} {stage}");
                             if read_line(rd) != "DONE" {
                                 bad("commit in child failed".into());
                             }
